@@ -115,7 +115,7 @@ def shard(args):
            "disagreements": [], "corr": 0}
     for i in range(n):
         spec = specgen.gen_safe_spec(rng, realsys.unit_info, allow_delete=False, allow_dumps=False)
-        if i % 2 == 0:
+        if i % 2 == 0 or i % 4 == 1:
             if history.has_shared_job(spec):
                 spec = specgen.unshare_jobs(spec)      # own journey, steps and jobs per usage pattern
         try:
@@ -126,13 +126,25 @@ def shard(args):
         ops = gen_changes(rng, live)
         if not ops:
             continue
+        pats = list(live.spec["system"]["usage_patterns"])
+        if len(pats) >= 2 and i % 4 == 1:
+            # a change of order only: the usage patterns are recomputed, no dependency is created
+            perm = pats[:]
+            while perm == pats:
+                rng.shuffle(perm)
+            ops = [{"op": "setlist", "kind": "system", "name": "__system__", "attr": "usage_patterns", "items": perm}] + [o for o in ops if o["op"] == "setq"][:1]
         first, last, min_last = period(live)
         # the modelled period as the code sees it: every hour at which some hourly value exists
         allk = [k for v in live.rs.observe().values() if v is not None and v["t"] == "h" for k in v["ks"]]
         last_all = datetime.fromtimestamp(max(allk), tz=timezone.utc) if allk else last
         first_all = datetime.fromtimestamp(min(allk), tz=timezone.utc) if allk else first
-        kind = rng.choice(["first", "first", "interior", "interior", "last", "before", "after", "naive", "failing"])
-        if kind == "first":
+        kind = rng.choice(["first", "first", "interior", "interior", "pattern-end", "last", "before", "after", "naive", "failing"])
+        if len(pats) >= 2 and i % 4 == 1:
+            kind = rng.choice(["pattern-end", "pattern-end", "interior", "first"])
+        if kind == "pattern-end":
+            # the last hours of the usage pattern that ends first (all usage patterns still active)
+            date = max(first, min_last - timedelta(hours=rng.randint(0, 13)))
+        elif kind == "first":
             date = first
         elif kind == "interior":
             span = int((min_last - first).total_seconds() // 3600)
@@ -162,7 +174,7 @@ def shard(args):
             trig6 = ":hourly-input-change"     # D26: an hourly input that is itself changed is not cut at the date
         elif any(o.get("attr") == "country" or o["op"] == "settz" for o in ops):
             trig6 = ":timezone-change"         # D21: local-time inputs are cut in the baseline zone, recomputed in the new one
-        elif any(o["op"] in ("setlink", "setlist") for o in ops):
+        elif any(o["op"] == "setlink" or (o["op"] == "setlist" and set(o["items"]) - set(live.spec_entry(o["kind"], o["name"])[o["attr"]])) for o in ops):
             trig6 = ":link-change"             # D22: dependencies created by the change are unknown when ancestors are cut
         else:
             trig6 = trig                       # D2 family
@@ -200,7 +212,7 @@ def shard(args):
             out["violations"].append({"signature": f"C05:baseline-changed:{phase}" + (trig if phase == "success" else ""), "detail": f"simulation {labels} at {kind} ({raised}): {len(changed)}+ attributes differ, e.g. {changed[:3]}",
                                       "replay": dict(replay, diagnosis=diag, shard_seed=seed, case_index=i)})
         if "C06" in which:
-            if kind in ("first", "interior", "last") and raised == "other:TypeError":
+            if kind in ("first", "interior", "last", "pattern-end") and raised == "other:TypeError":
                 out["violations"].append({"signature": "C06:simulation-raises-TypeError:no-hourly-ancestor-outside-chain",
                                           "detail": f"simulation {labels} dated inside the modelled period raises TypeError (global_min_date is None)", "replay": replay})
             if kind in ("before", "after") and raised not in ("period", "other:TypeError"):
@@ -319,6 +331,24 @@ def shard(args):
                     if "lean driver failed" in str(e):
                         raise
                     out["second_sim_errors"] = out.get("second_sim_errors", 0) + 1
+        # … and at each of the last hours of the usage pattern that ends first (where the zones of the usage
+        # patterns decide which inputs are cut), for the changes of order
+        if "C06" in which and len(pats) >= 2 and i % 4 == 1 and not trig6:
+            for back in rng.sample(range(0, 14), 5):
+                d2 = max(first, min_last - timedelta(hours=back))
+                try:
+                    with watchdog(60):
+                        simx = ModelingUpdate(build_changes(live, ops), simulation_date=d2)
+                except Exception:  # noqa
+                    continue
+                out["end_sweeps"] = out.get("end_sweeps", 0) + 1
+                badx = next(((v, r) for v, r in zip(simx.values_to_recompute, simx.recomputed_values)
+                             if isinstance(r, ExplainableHourlyQuantities) and len(r.value) and r.value.index.min().to_pydatetime() < d2), None)
+                if badx:
+                    out["violations"].append({"signature": "C06:simulated-series-starts-before-date" + trig6,
+                                              "detail": f"{badx[0].id}: simulated series starts {badx[1].value.index.min()} < {d2} ({back} h before the end of the first usage pattern to end)",
+                                              "replay": dict(replay, date=d2.isoformat(), date_kind="pattern-end")})
+                    break
         out["hashes"].append(eo.sysoracles_hash(spec, [ops, kind]))
         if len(out["samples"]) < 1:
             out["samples"].append({"changes": labels, "date": kind})
